@@ -804,7 +804,8 @@ class Frame:
                 elif isinstance(v, (list, CatList, StackList)):
                     self.env[nme] = self.havoc_value(nme, v, spec, 'h')
                 elif isinstance(v, Opaque):
-                    pass
+                    if spec.abstract and callable(spec.abstract.get(nme)):
+                        spec.abstract[nme](self, v, it)   # installs the object's ghost state at iteration `it`
                 else:
                     raise Unsupported("mutated object %s of type %s in cut loop" % (nme, type(v).__name__))
         ctx.assume(it >= 0)
